@@ -275,12 +275,14 @@ def _layout(ctx, priv, merged):
         N.txt(pel[5]) == appv
     # destructuring in the merge
     targets = None
+    mloop = K.one(_yield_loops(ctx.cfg(merged)),
+                  'queue loop of the merging generator')
+    if isinstance(mloop.ast.target, ast.Tuple):
+        targets = [N.txt(e) for e in mloop.ast.target.elts]
     for sub in K.walk_no_nested(merged.node):
         if isinstance(sub, ast.Assign) and isinstance(sub.targets[0],
                                                       ast.Tuple) and \
                 isinstance(sub.value, ast.Name):
-            mloop = K.one(_yield_loops(ctx.cfg(merged)),
-                          'queue loop of the merging generator')
             if sub.value.id in N.for_targets(mloop):
                 targets = [N.txt(e) for e in sub.targets[0].elts]
     mel = [N.txt(e) for e in mtup.elts]
@@ -301,9 +303,17 @@ def _layout(ctx, priv, merged):
         okrot = False
         if len(names) == 6:
             loop = K.one(_yield_loops(ctx.cfg(func)), 'queue loop')
-            rot = [s for stmt in loop.ast.body for s in ast.walk(stmt)
-                   if isinstance(s, ast.Assign) and
-                   N.txt(s.targets[0]) == names[1] and
+            assigns = [s for stmt in loop.ast.body for s in ast.walk(stmt)
+                       if isinstance(s, ast.Assign) and
+                       len(s.targets) == 1]
+            # position 1 takes the value of position 2 for the next entry,
+            # directly or through a carry variable (p1 = c ... c = p2)
+            carriers = set([names[1]]) | set(
+                N.txt(s.value) for s in assigns
+                if N.txt(s.targets[0]) == names[1] and
+                isinstance(s.value, ast.Name))
+            rot = [s for s in assigns
+                   if N.txt(s.targets[0]) in carriers and
                    N.txt(s.value) == names[2]]
             comp = [s for stmt in loop.ast.body for s in ast.walk(stmt)
                     if isinstance(s, ast.Assign) and
@@ -324,26 +334,34 @@ def _layout(ctx, priv, merged):
     cell = ctx.index.get_class(K.SCHED, 'Cell')
     rec = cell.methods.get('_record_rank_and_util')
     ctx.require(rec is not None, 'Cell._record_rank_and_util')
-    reads = {}
-    for sub in K.walk_no_nested(rec.node):
-        if isinstance(sub, ast.Assign) and isinstance(sub.value,
-                                                      ast.Subscript) and \
-                N.txt(sub.value.value) == 'item':
-            reads[N.txt(sub.targets[0])] = N.txt(sub.value.slice)
-    ok = reads.get('rank') == '0' and reads.get('util') == '1' and \
-        reads.get('app') in ('-1', '5')
-    ctx.ob('C06.4', rec, None, ok,
-           'consumer reads rank=item[0], util=item[1], app=item[-1]: %s' %
-           reads, construct='positions read by _record_rank_and_util')
+    # judged on data flow: whatever the locals are called, the attribute
+    # stores read positions 0 and 1 of the entry whose last position is the
+    # instance
+    rloops = [n for n in ctx.cfg(rec).nodes if n.kind == 'for']
+    rloop = K.one(rloops, 'loop of _record_rank_and_util')
+    target = rloop.ast.target
+    pos = {}
+    if isinstance(target, ast.Tuple) and len(target.elts) == 6:
+        for idx, elt in enumerate(target.elts):
+            pos[N.txt(elt)] = idx
+    elif isinstance(target, ast.Name):
+        for idx in range(6):
+            pos['%s[%d]' % (target.id, idx)] = idx
+        pos['%s[-1]' % target.id] = 5
     stores = {}
     for sub in K.walk_no_nested(rec.node):
         if isinstance(sub, ast.Assign) and isinstance(sub.targets[0],
                                                       ast.Attribute):
-            stores[sub.targets[0].attr] = N.txt(sub.value)
-    ctx.ob('C06.4', rec, None, stores.get('final_rank') == 'rank' and
-           stores.get('final_util') == 'util',
-           'final_rank/final_util are taken from those positions: %s' %
-           stores, construct='final_rank/final_util')
+            stores.setdefault(sub.targets[0].attr, []).append((
+                pos.get(K.rtxt(rec, sub.targets[0].value)),
+                pos.get(K.rtxt(rec, sub.value))))
+    ok = stores.get('final_rank') == [(5, 0)] and \
+        stores.get('final_util') == [(5, 1)]
+    ctx.ob('C06.4', rec, None, ok,
+           'consumer stores entry[0] as final_rank and entry[1] as '
+           'final_util of the instance entry[-1]: (receiver position, value '
+           'position) = %s' % stores,
+           construct='positions read by _record_rank_and_util')
 
 
 def _exactly_once(ctx, priv, merged):
@@ -384,15 +402,21 @@ def _exactly_once(ctx, priv, merged):
     head = K.one(loops, 'queue loop of %s' % merged.qualname)
     it = K.rexpr(merged, head.ast.iter)
     is_merge = isinstance(it, ast.Call) and \
-        K.callee_text(it) == 'heapq.merge' and len(it.args) == 1 and \
-        isinstance(it.args[0], ast.Starred) and not it.keywords
+        K.callee_text(it) == 'heapq.merge' and bool(it.args) and \
+        not it.keywords
     ctx.ob('C06.5', merged, head.ast, is_merge,
            'the merged queue iterates heapq.merge(*<queues>): an order-'
            'preserving merge that yields every element of every input '
            '(found %s)' % N.txt(it), construct='merge inputs')
     if is_merge:
-        qname = N.txt(it.args[0].value)
-        parts = K.list_contributions(merged, qname)
+        # the inputs, however the argument list is spelled: *queues,
+        # *(subs + [own]), positional queues
+        parts = []
+        for arg in it.args:
+            if isinstance(arg, ast.Starred):
+                parts.extend(K.sequence_parts(merged, arg.value))
+            else:
+                parts.extend(K.sequence_parts(merged, ast.List(elts=[arg])))
         subs, own, bad = [], [], []
         for part in parts:
             if 'other' in part:
